@@ -16,6 +16,7 @@ import (
 
 	"github.com/sourcenetwork/immutable"
 
+	acpTypes "github.com/sourcenetwork/defradb/acp/types"
 	"github.com/sourcenetwork/defradb/client"
 	"github.com/sourcenetwork/defradb/client/request"
 	"github.com/sourcenetwork/defradb/errors"
@@ -23,6 +24,7 @@ import (
 	coreblock "github.com/sourcenetwork/defradb/internal/core/block"
 	"github.com/sourcenetwork/defradb/internal/datastore"
 	"github.com/sourcenetwork/defradb/internal/db/fetcher"
+	"github.com/sourcenetwork/defradb/internal/db/permission"
 	"github.com/sourcenetwork/defradb/internal/keys"
 	"github.com/sourcenetwork/defradb/internal/planner/mapper"
 )
@@ -235,6 +237,17 @@ func (n *dagScanNode) Next() (bool, error) {
 		return false, err
 	}
 
+	// commits of a document that the requester is not allowed to read are not visible,
+	// and neither is the history they link to
+	hasAccess, err := n.hasReadAccess(dagBlock)
+	if err != nil {
+		return false, err
+	}
+	if !hasAccess {
+		n.visitedNodes[currentCid.String()] = true
+		return n.Next()
+	}
+
 	if n.commitSelect.FieldName.HasValue() {
 		if n.commitSelect.FieldName.Value() == request.CompositeFieldName {
 			if dagBlock.Delta.IsComposite() {
@@ -336,6 +349,39 @@ which returns the current dag commit for the stored CRDT value.
 
 All the dagScanNode endpoints use similar structures
 */
+
+// hasReadAccess returns true if the requester has read access to the document
+// the given block belongs to. Blocks that don't belong to a document are always accessible.
+func (n *dagScanNode) hasReadAccess(block *coreblock.Block) (bool, error) {
+	docID := block.Delta.GetDocID()
+	if docID == nil || !n.planner.documentACP.HasValue() {
+		return true, nil
+	}
+
+	schemaVersionId := block.Delta.GetSchemaVersionID()
+	cols, err := n.planner.db.GetCollections(
+		n.planner.ctx,
+		client.CollectionFetchOptions{
+			IncludeInactive: immutable.Some(true),
+			VersionID:       immutable.Some(schemaVersionId),
+		},
+	)
+	if err != nil {
+		return false, err
+	}
+	if len(cols) == 0 {
+		return false, client.NewErrCollectionNotFoundForCollectionVersion(schemaVersionId)
+	}
+
+	return permission.CheckAccessOfDocOnCollectionWithACP(
+		n.planner.ctx,
+		n.planner.identity,
+		n.planner.documentACP.Value(),
+		cols[0],
+		acpTypes.DocumentReadPerm,
+		string(docID),
+	)
+}
 
 func (n *dagScanNode) dagBlockToNodeDoc(block *coreblock.Block) (core.Doc, error) {
 	commit := n.commitSelect.DocumentMapping.NewDoc()
